@@ -1,7 +1,9 @@
 package main
 
 import (
+	"fmt"
 	"sort"
+	"strings"
 
 	"github.com/hashicorp/hcl/v2"
 	"github.com/hashicorp/hcl/v2/hclsyntax"
@@ -311,6 +313,21 @@ func jsonObjectMarkedKey(e hcl.Expression, ctx *hcl.EvalContext, depth int) (fou
 
 // evalExpr evaluates e in every scope; it returns the rendering of the value
 // in the typical scope (for the signature).
+// diagKeys: severity, summary and subject range of every diagnostic, sorted (the detail text may
+// hold a "did you mean" suggestion picked from a map and is not compared).
+func diagKeys(diags hcl.Diagnostics) string {
+	var ks []string
+	for _, d := range diags {
+		k := fmt.Sprintf("%d|%s", d.Severity, d.Summary)
+		if d.Subject != nil {
+			k += "|" + rstr(*d.Subject)
+		}
+		ks = append(ks, k)
+	}
+	sort.Strings(ks)
+	return strings.Join(ks, ";")
+}
+
 func (r *runner) evalExpr(origin string, e hcl.Expression, parseOK bool) string {
 	typical := ""
 	for _, sc := range ctxs {
@@ -333,6 +350,15 @@ func (r *runner) evalExpr(origin string, e hcl.Expression, parseOK bool) string 
 			continue
 		}
 		r.cnt["evaluations."+origin]++
+		// deterministic: evaluating the same expression again in the same scope gives the same
+		// value and the same diagnostics (an error is not reported only the first time)
+		var v2 cty.Value
+		var diags2 hcl.Diagnostics
+		if c := protect(func() { v2, diags2 = e.Value(sc.ctx) }); c == nil {
+			if diagKeys(diags) != diagKeys(diags2) || vfmt.V(v) != vfmt.V(v2) {
+				r.failf("c15.eval-not-repeatable."+origin, "Value(%s scope) of a %s expression (range %s) called twice: first %s with diagnostics %s, then %s with diagnostics %s", sc.name, origin, rstr(e.Range()), vfmt.V(v), diagDump(diags, true), vfmt.V(v2), diagDump(diags2, true))
+			}
+		}
 		if parseOK {
 			// The property demands in-bounds ranges for evaluating error-free
 			// parse results; for partial results only panic-freedom is checked.
